@@ -118,7 +118,8 @@ def execute(acc, case):
                 if d:
                     sc.inject(R.encode(N.dpa(hbh=d[-1].hbh, e2e=d[-1].e2e)))
             elif cause == "peer-dpr":
-                sc.inject(R.encode(N.dpr(hbh=77, e2e=78)))
+                # any Disconnect-Cause the peer may give (REBOOTING, BUSY, DO_NOT_WANT_TO_TALK_TO_YOU): the peer is leaving either way
+                sc.inject(R.encode(N.dpr(hbh=77, e2e=78, cause=case.get("dpr_cause", 0))))
             elif cause == "peer-disconnect":
                 sc.peer_sock.close()
             elif cause == "peer-reset":
@@ -228,7 +229,8 @@ def main(tier, seed):
                 for i in range(reps):
                     cases.append({"seed": seed * 7919 + len(cases), "cause": cause, "point": point, "role": role,
                                   "strategy": "rr" if i == 0 else "rw", "p": rng.choice([0.02, 0.1, 0.3]),
-                                  "transport": "SCTP" if (i % 3 == 2 and cause != "refused") else "TCP"})
+                                  "transport": "SCTP" if (i % 3 == 2 and cause != "refused") else "TCP",
+                                  "dpr_cause": (0, 1, 2)[i % 3] if cause == "peer-dpr" else 0})
     rng.shuffle(cases)
     nb = 16 if q else 64
     batches = [{"cases": cases[i::nb]} for i in range(nb)]
